@@ -1,5 +1,8 @@
 """C01 - every query cell gets one complete, ordered, tree-consistent assignment."""
+import copy
 import math
+
+import hypothesis.strategies as st
 
 from pbt import gen, mapping, materialize, treemodel
 from pbt.core import Case, Violation, sandbox
@@ -20,8 +23,15 @@ def budget(tier):
     return {'quick': 320, 'thorough': 6000}[tier]
 
 
+@st.composite
+def strategy_(draw):
+    spec = dict(draw(gen.map_cases()))
+    spec['driver'] = draw(st.sampled_from(['run_mapping', 'run_mapping', 'run_mapping', 'direct_manager', 'direct_buffer']))
+    return spec
+
+
 def strategy(tier):
-    return gen.map_cases()
+    return strategy_()
 
 
 def enumerate_specs(tier):
@@ -61,7 +71,27 @@ def sample_view(spec):
     return common.map_sample_view(spec)
 
 
+def check_direct(spec):
+    """second driver: the return value of run_type_assignment_on_h5ad (voting tree only)"""
+    from pbt import refmodel
+    with sandbox() as d:
+        paths = materialize.write_map_case(d, spec)
+        res, err = mapping.run_direct(d, paths, spec, use_buffer_dir=(spec['driver'] == 'direct_buffer'))
+    if err is not None:
+        raise Violation('run_raised', f'{type(err).__name__}: {str(err)[:400]}')
+    vspec = copy.deepcopy(spec)
+    vspec['tree'] = refmodel.voting_tree(spec)
+    vspec['cfg'] = dict(spec['cfg'], flatten=False, drop_level=None)
+    return check_results(vspec, res)
+
+
 def check(spec):
+    if spec.get('driver', 'run_mapping') != 'run_mapping':
+        classes = check_direct(spec) + [spec['driver']]
+        n = len(spec['query']['cells'])
+        cfg = spec['cfg']
+        eff = min(max(1, math.ceil(n / cfg['n_processors'])), cfg['chunk_size'])
+        return Case(n > eff and (len(spec['tree']['hierarchy']) >= 2), classes + ['multi_chunk' if n > eff else 'single_chunk'])
     with sandbox() as d:
         paths = materialize.write_map_case(d, spec)
         o = mapping.run(d, paths, spec['cfg'])
